@@ -61,7 +61,7 @@ def history_check(prop, tier, seed, shapes, monitors, modules, profiles, p_inval
 
 
 def check_C01(tier, seed):
-    return history_check("C01", tier, seed, gen.ALL_SHAPES, [mon_c01], ["Soa.Props.C01", "Soa.Props.C01Extracted", "Soa.Lemmas.SkelTie", "Soa.Lemmas.SkelRead.C01", "Soa.Lemmas.LoopTie", "Soa.Lemmas.LoopTieW", "Soa.Lemmas.LoopsW", "Soa.Lemmas.WriteRows", "Soa.Lemmas.RetainIdxW", "Soa.Lemmas.SpecRetainW", "Soa.Lemmas.GenTie"], ["debug", "release"])
+    return history_check("C01", tier, seed, gen.ALL_SHAPES, [mon_c01], ["Soa.Props.C01", "Soa.Props.C01Extracted", "Soa.Lemmas.SkelTie", "Soa.Lemmas.SkelRead.C01", "Soa.Lemmas.LoopTie", "Soa.Lemmas.LoopTieW", "Soa.Lemmas.LoopsW", "Soa.Lemmas.WriteRows", "Soa.Lemmas.RetainIdxW", "Soa.Lemmas.SpecRetainW", "Soa.Lemmas.GenTie", "Soa.Lemmas.Delegations.C01"], ["debug", "release"])
 
 def check_C02(tier, seed):
     return history_check("C02", tier, seed, gen.ALL_SHAPES, [mon_c02], ["Soa.Props.C02", "Soa.Props.World", "Soa.Props.C01Extracted", "Soa.Lemmas.SkelTie", "Soa.Lemmas.SkelRead.C01", "Soa.Lemmas.LoopTie", "Soa.Lemmas.LoopTieW", "Soa.Lemmas.GenTie"], ["debug", "release"], p_invalid=0.4)
@@ -77,7 +77,7 @@ def check_C04(tier, seed):
     t0 = time.time()
     L = 4 if tier == "quick" else 6
     for p in ("debug", "release"): build_harness(p)
-    proof = prove("C04", ["Soa.Props.C04"])
+    proof = prove("C04", ["Soa.Props.C04", "Soa.Lemmas.Delegations.C04"])
     scs = gen.index_exhaustive(gen.ALL_SHAPES, L)
     suites = [run_suite("C04", scs, ["debug", "release"], [mon_c04], "index", compare_model=True)]
     def widen():
@@ -110,7 +110,7 @@ def check_C12(tier, seed):
     t0 = time.time()
     z = sizes(tier)
     for p in ("debug", "release"): build_harness(p)
-    proof = prove("C12", ["Soa.Props.C12", "Soa.Lemmas.SkelCapTie", "Soa.Lemmas.SkelRead.C12"])
+    proof = prove("C12", ["Soa.Props.C12", "Soa.Lemmas.SkelCapTie", "Soa.Lemmas.SkelRead.C12", "Soa.Lemmas.Delegations.C12"])
     scs = gen.cap_scenarios(gen.CAP_SHAPES, z["nrand"], z["nops"], seed)
     suites = [run_suite("C12", scs, ["debug", "release"], [mon_c12], "capacity", compare_model=MODEL_C12),
               # the capacity API and the growing operations dispatched through the SoAVec trait
@@ -158,7 +158,7 @@ def check_C05(tier, seed):
 
 def check_C06(tier, seed):
     L = 4 if tier == "quick" else 6
-    return simple_check("C06", tier, seed, lambda t: gen.iter_scenarios(gen.ALL_SHAPES, L), mon_c06, ["Soa.Props.C06", "Soa.Lemmas.SkelIterTie", "Soa.Lemmas.SkelRead.C06", "Soa.Lemmas.GenViewTie"],
+    return simple_check("C06", tier, seed, lambda t: gen.iter_scenarios(gen.ALL_SHAPES, L), mon_c06, ["Soa.Props.C06", "Soa.Lemmas.SkelIterTie", "Soa.Lemmas.SkelRead.C06", "Soa.Lemmas.GenViewTie", "Soa.Lemmas.Delegations.C06"],
                         model=MODEL["C06"], widen_fn=lambda: gen.iter_scenarios(gen.ALL_SHAPES, 6), extra_cov={"exhaustive": True})
 
 def check_C07(tier, seed):
@@ -173,7 +173,7 @@ def check_C10(tier, seed):
 
 def check_C15(tier, seed):
     L = 4 if tier == "quick" else 6
-    return simple_check("C15", tier, seed, lambda t: gen.refs_scenarios(gen.ALL_SHAPES, L), mon_c15, ["Soa.Props.C15", "Soa.Lemmas.SkelRefsTie", "Soa.Lemmas.SkelRead.C15"],
+    return simple_check("C15", tier, seed, lambda t: gen.refs_scenarios(gen.ALL_SHAPES, L), mon_c15, ["Soa.Props.C15", "Soa.Lemmas.SkelRefsTie", "Soa.Lemmas.SkelRead.C15", "Soa.Lemmas.Delegations.C15"],
                         model=MODEL["C15"], widen_fn=lambda: gen.refs_scenarios(gen.ALL_SHAPES, 6))
 
 
